@@ -48,29 +48,23 @@ func expect(in []byte, rule, maxLen int) (cls int, y int64, m, d int) {
 	return expAccept, y, m, d
 }
 
-func probe(a arg) (string, string) {
-	in := []byte(a.In)
-	cls, y, m, d := expect(in, a.Rule, a.MaxLen)
-	var got date.Date
-	var err error
-	var typed bool
-	isTyped := func(err error) bool { // the statement asks for "a typed parse error": either instantiation of date.ParseError counts
-		var ps *date.ParseError[string]
-		var pb *date.ParseError[[]byte]
+func isTyped(err error, in []byte, bytesInput bool) bool {
+	// a typed parse error: *date.ParseError instantiated with the input's type; for the empty input the pinned tree itself
+	// answers DefaultParser[string]("") with a ParseError[[]byte], so either instantiation is accepted there
+	var ps *date.ParseError[string]
+	var pb *date.ParseError[[]byte]
+	if len(in) == 0 {
 		return errors.As(err, &ps) || errors.As(err, &pb)
 	}
-	switch a.Path {
-	case 0:
-		got, err = date.DefaultParser(string(in), date.Rule(a.Rule))
-		typed = isTyped(err)
-	case 1:
-		cp := append([]byte(nil), in...)
-		got, err = date.DefaultParser(cp, date.Rule(a.Rule))
-		typed = isTyped(err)
-	case 2:
-		err = got.UnmarshalText(append([]byte(nil), in...))
-		typed = isTyped(err)
+	if !bytesInput {
+		return errors.As(err, &ps)
 	}
+	return errors.As(err, &pb)
+}
+
+// judge compares one parser result with the reference expectation for (in, rule, maxLen).
+func judge(in []byte, rule, maxLen int, bytesInput bool, got date.Date, err error) (string, string) {
+	cls, y, m, d := expect(in, rule, maxLen)
 	switch cls {
 	case expAccept:
 		if err != nil {
@@ -81,16 +75,74 @@ func probe(a arg) (string, string) {
 		}
 	default:
 		if err == nil {
-			return "non_date_accepted", fmt.Sprintf("%q accepted as %s; it is not an existing day / not in the accepted language (rule=%d limit=%d)", in, got, a.Rule, a.MaxLen)
+			return "non_date_accepted", fmt.Sprintf("%q accepted as %s; it is not an existing day / not in the accepted language (rule=%d limit=%d)", in, got, rule, maxLen)
 		}
 		if got != (date.Date{}) {
 			return "nonzero_result_with_error", fmt.Sprintf("%q: result %v with error %v", in, got, err)
 		}
-		if !typed {
-			return "untyped_error", fmt.Sprintf("%q: error %T %v is not a *date.ParseError", in, err, err)
+		if !isTyped(err, in, bytesInput) {
+			return "untyped_error", fmt.Sprintf("%q: error %T %v is not a *date.ParseError of the input's type", in, err, err)
 		}
 		if cls == expRejectBasicDisabled && !errors.Is(err, date.ErrBasicFormatDisabled) {
 			return "basic_disabled_wrong_error", fmt.Sprintf("%q with RuleDisableBasic: %v is not ErrBasicFormatDisabled", in, err)
+		}
+	}
+	return "", ""
+}
+
+func probe(a arg) (string, string) {
+	in := []byte(a.In)
+	var got date.Date
+	var err error
+	switch a.Path {
+	case 0:
+		got, err = date.DefaultParser(string(in), date.Rule(a.Rule))
+	case 1:
+		cp := append([]byte(nil), in...)
+		got, err = date.DefaultParser(cp, date.Rule(a.Rule))
+	case 2:
+		err = got.UnmarshalText(append([]byte(nil), in...))
+	}
+	return judge(in, a.Rule, a.MaxLen, a.Path != 0, got, err)
+}
+
+// histories of depth 2: a call must behave the same whatever call preceded it (also when the caller reuses one buffer)
+type histArg struct {
+	First  arg `json:"first"` // First.Path selects the single previous call: 0 DefaultParser[string], 1 DefaultParser[[]byte] on the shared buffer, 2 UnmarshalText on the shared buffer
+	Second arg `json:"second"`
+}
+
+func setupHist(h histArg) { date.MaxInputLength = h.Second.MaxLen }
+
+func probeHist(h histArg) (string, string) {
+	buf := make([]byte, 0, 64)
+	buf = append(buf, h.First.In...)
+	switch h.First.Path { // exactly one previous call, so that no other call disturbs whatever state it may leave behind
+	case 0:
+		_, _ = date.DefaultParser(string(h.First.In), date.Rule(h.First.Rule))
+	case 1:
+		_, _ = date.DefaultParser(buf, date.Rule(h.First.Rule))
+	default:
+		var d date.Date
+		_ = d.UnmarshalText(buf)
+	}
+	buf = append(buf[:0], h.Second.In...) // the same backing array, overwritten in place
+	got, err := date.DefaultParser(buf, date.Rule(h.Second.Rule))
+	if k, d := judge([]byte(h.Second.In), h.Second.Rule, h.Second.MaxLen, true, got, err); k != "" {
+		return "after_previous_call:" + k, fmt.Sprintf("after DefaultParser(%q, rule=%d) on the same buffer: %s", h.First.In, h.First.Rule, d)
+	}
+	got, err = date.DefaultParser(string(h.Second.In), date.Rule(h.Second.Rule))
+	if k, d := judge([]byte(h.Second.In), h.Second.Rule, h.Second.MaxLen, false, got, err); k != "" {
+		return "after_previous_call:" + k, fmt.Sprintf("after DefaultParser(%q, rule=%d): %s", h.First.In, h.First.Rule, d)
+	}
+	var u date.Date
+	err = u.UnmarshalText([]byte(h.Second.In))
+	if err != nil {
+		u = date.Date{}
+	}
+	if h.Second.Rule == 0 {
+		if k, d := judge([]byte(h.Second.In), 0, h.Second.MaxLen, true, u, err); k != "" {
+			return "after_previous_call:" + k, fmt.Sprintf("UnmarshalText after DefaultParser(%q, rule=%d): %s", h.First.In, h.First.Rule, d)
 		}
 	}
 	return "", ""
@@ -104,6 +156,28 @@ func main() {
 		r.Reset = reset
 		reset()
 		p := mc.NewProbe(r, "parse", setup, probe)
+		ph := mc.NewProbe(r, "history2", setupHist, probeHist)
+		r.Phase("serial: all histories of two parser calls over 26 texts x 2 rules (the second call is judged; the caller reuses one buffer)", "complete for depth 2 over the listed texts", func() {
+			texts := []string{"2024-02-29", "20240229", "2023-02-29", "20230229", "2024-02-30", "0001-01-01", "00010101", "9999-12-31", "2024-13-01", "2024-02-2x", "", "2024", "2024-0229", "202402-29",
+				"2024-02-28", "20240228", "1999-12-31", "19991231", "2000-02-29", "1900-02-29", "2024-02-29x", "x", "12345-01-01", "2024-2-29", "20240431", "2024-04-31"}
+			setup(arg{MaxLen: 10})
+			r.Serial(func(w *mc.W) {
+				for _, a := range texts {
+					for ra := 0; ra < 2; ra++ {
+						for _, b := range texts {
+							for rb := 0; rb < 2; rb++ {
+								for via := 0; via < 3; via++ {
+									w.Point()
+									w.NonTrivial()
+									ph.Do(w, histArg{arg{In: mc.Bin(a), Rule: ra, MaxLen: 10, Path: via}, arg{In: mc.Bin(b), Rule: rb, MaxLen: 10}})
+								}
+							}
+						}
+					}
+				}
+			})
+			reset()
+		})
 		r.Assume("reference: hand-written recogniser (4-9 year digits, separators both or none) + Gregorian month-length table; no regexp, no package time")
 		r.Assume("inputs over MaxInputLength: only 'error, zero result, typed error' is required here (the error class is C18's)")
 		r.Assume("invalid basic-shaped text under RuleDisableBasic: either ErrBasicFormatDisabled or the generic error is accepted (statement is silent)")
